@@ -291,6 +291,74 @@ def run_unknown(args):
 
 
 # ------------------------------------------------------------------------------------------
+# an undefined descriptor inside the scope of a data-description operator: the operator must not turn "unknown" into "skipped"
+SCOPES = [
+    ('221-span-1', [1001, 221001, 'X', 12001]),
+    ('221-span-last', [221002, 12001, 'X', 1001]),
+    ('221-span-mid', [221003, 1001, 'X', 12001]),
+    ('221-in-repl', [102002, 221001, 'X']),
+    ('221-over-repl', [221003, 101002, 'X', 1001]),
+    ('201', [201130, 'X', 201000]),
+    ('202', [202129, 'X', 202000]),
+    ('207', [207001, 'X', 207000]),
+    ('208', [208002, 'X', 208000]),
+    ('204', [204002, 31021, 'X', 204000]),
+    ('203-define', [203012, 'X', 203255]),
+    ('203-in-force', [203012, 5002, 203255, 'X', 203000]),
+    ('after-222', [1001, 222000, 101001, 31031, 'X']),
+    ('bitmap-target', ['X', 223000, 101001, 31031, 223255]),
+    ('206-skip', [206008, 'X', 1001]),          # the one legitimate way to pass over a descriptor that is in no table
+]
+UNKNOWN_IDS = [63254, 12250, 2250, 31250, 33250, 363254, 309250]
+
+
+def run_unknown_scopes(args):
+    from pybufrkit.decoder import Decoder
+    from pybufrkit.errors import UnknownDescriptor
+    scopes = args
+    p = Partial()
+    B, D = S.tables_for(33)
+    from mc.ref.bits import BitBuf
+    for sname, tmpl in scopes:
+        for u in UNKNOWN_IDS:
+            assert u not in B and u not in D
+            if sname == '206-skip' and u // 100000 != 0:
+                continue
+            ids = [u if x == 'X' else x for x in tmpl]
+            for comp, nsub in ((False, 1), (False, 2), (True, 2)):
+                for fill in (0x00, 0x55):
+                    buf = BitBuf()
+                    for _ in range(120):
+                        buf.put(fill if not comp else 0, 8)
+                    b, _ = message.build(message.Spec(descs=ids, nsub=nsub, compressed=comp), buf)
+                    for cc in (None, 2):
+                        p.n['exec'] += 1
+                        dec = Decoder(compiled_template_cache_max=cc) if cc else Decoder()
+                        out = []
+                        for rep_ in range(2 if cc else 1):          # second run: template from the compiled cache
+                            with contextlib.redirect_stderr(io.StringIO()):
+                                try:
+                                    m = dec.process(b, wire_template_data=False)
+                                    labels = [str(x) for x in m.template_data.value.decoded_descriptors_all_subsets[0]]
+                                    out.append('ok' if sname != '206-skip' or ('S%05d' % u) in labels else 'ok-without-skipped-label')
+                                except UnknownDescriptor:
+                                    out.append('UnknownDescriptor')
+                                except Exception as e:
+                                    out.append(type(e).__name__)
+                        want = 'ok' if sname == '206-skip' else 'UnknownDescriptor'
+                        p.outcome((sname, u // 1000, comp, cc, out[-1]))
+                        if any(o != want for o in out):
+                            p.violation('unknown-in-scope|%s|%s' % (sname.split('-')[0], 'accepted' if 'ok' in out else 'error-type:' + out[0]),
+                                        {'scope': sname, 'ids': ids, 'undefined': u, 'compressed': comp, 'nsub': nsub, 'fill': fill,
+                                         'compiled_cache': cc},
+                                        'list %r (%06d inside %s), %s, %d subsets%s: %r, expected %s'
+                                        % (ids, u, sname, 'compressed' if comp else 'uncompressed', nsub,
+                                           ', compiled templates' if cc else '', out, want))
+    p.n['nodes'], p.n['edges'] = p.n['exec'] + 1, p.n['exec']
+    return p
+
+
+# ------------------------------------------------------------------------------------------
 def expected_key(mtn, centre, sub, mver, lver, root=None):
     """the documented fall-back (docstring of normalize_tables_sn), judged against the directory listing"""
     def isdir(*parts):
@@ -519,6 +587,10 @@ def replay(part, case):
         p = run_select([(case['master_table_number'], case['centre'], case['subcentre'], case['master_version'],
                          case['local_version'])])
         return [{'sig': x['sig'], 'detail': x['detail']} for x in p.viol]
+    if part == 'unknown-in-scope':
+        p = run_unknown_scopes([sc for sc in SCOPES if sc[0] == case['scope']])
+        return [{'sig': x['sig'], 'detail': x['detail']} for x in p.viol
+                if all(x['case'][k] == case[k] for k in ('ids', 'compressed', 'nsub', 'fill', 'compiled_cache'))]
     if part == 'unknown':
         p = run_unknown((len(case['ids']), [case['ids'][0]]))
         return [{'sig': x['sig'], 'detail': x['detail']} for x in p.viol
@@ -563,6 +635,12 @@ def main(tier, seed):
     p = merge_all(run_shards(run_unknown, [(ulen, [f]) for f in SYMS]))
     p.n['nodes'], p.n['edges'] = p.n['exec'] + 1, p.n['exec']
     rep.add_part('unknown', p, bounds={'max_length': ulen})
+    p = merge_all(run_shards(run_unknown_scopes, [[sc] for sc in SCOPES]))
+    rep.add_part('unknown-in-scope', p, bounds={'scopes': [n_ for n_, _ in SCOPES], 'undefined_ids': UNKNOWN_IDS,
+                                                'envelopes': ['1 subset', '2 subsets', '2 subsets compressed'],
+                                                'data_fill': ['00', '55'], 'decoders': ['plain', 'compiled (first and cached run)']},
+                 rule='an undefined element (classes 63, 12, 02, 31, 33) or sequence inside the scope of 221 / 201 / 202 / 207 / 208 / '
+                      '204 / 203 / after 222 / as bitmap target must raise UnknownDescriptor; after 206 it is legitimately skipped')
     combos = list(itertools.product((0, 1, 10), (0, 7, 98, 99), (0, 3), range(0, 46), (0, 1, 2, 3, 4, 101)))
     p = merge_all(run_shards(run_select, split(combos, 32)))
     p.n['nodes'], p.n['edges'] = p.n['exec'] + 1, p.n['exec']
